@@ -6,7 +6,7 @@
    handed operations in strictly increasing index order). With snapshots: decided on every run by the
    lock-step co-simulation together with the monitors run on the implementation's own observations. *)
 From RaftV Require Import Cluster.World Cluster.Statements Proofs.RVSpec Proofs.AESpec Proofs.CommitSpec.
-From RaftV Require Import Proofs.ConfStatic Proofs.ApplyOrder Proofs.LCFinal.
+From RaftV Require Import Proofs.ConfStatic Proofs.ApplyOrder Proofs.FsmApplies Proofs.LCFinal.
 Open Scope N_scope.
 
 (* cluster level, every schedule without membership changes and snapshots: C01_statement restricted to
@@ -18,6 +18,14 @@ Theorem C01_state_machine_safety_partial : forall ids boot et ld ls1 ls2,
   forall i t p t' p', applied_in w1 i t p -> applied_in w2 i t' p' -> t = t' /\ p = p'.
 Proof. exact state_machine_safety_nosnap. Qed.
 Print Assumptions C01_state_machine_safety_partial.
+
+(* the state machine of a node is exactly the sequence of payloads it has been handed since its last restore
+   (executions without snapshots; read-only operations never write it) *)
+Theorem C01_state_machine_is_the_applied_sequence : forall ids boot et ld ls, static ls = true -> nosnap ls = true ->
+  forall n, In n (w_nodes (run (init_world ids boot et ld) ls)) ->
+    n_fsm n = map (fun x : N * N * N => snd x) (n_applies n).
+Proof. exact fsm_is_applied_payloads. Qed.
+Print Assumptions C01_state_machine_is_the_applied_sequence.
 
 (* not vacuous: a schedule (3 nodes) in which node 0 is elected in term 1, replicates, commits and applies the
    operation 7 at index 3 (first point: c07_ls1), then node 1 applies it and is elected in term 2 (second point) *)
